@@ -157,9 +157,12 @@ CLAIMS = {
         "reachable state, for every NIP-01 filter (tag constraints named by one letter), through whichever plan: a retrievable, matching, screened-in event "
         "that is missing from the answer implies that exactly limit events were returned and none of them is older (newest_under_limit: the moving since and "
         "the early range exits never lose a newer event; equal times may fall either side of the cut); hence with a non-binding limit the answer is exactly "
-        "the qualifying set and does not depend on the plan (findEvents_exact, plan_independent, answer_characterised). Correspondence: ~40 "
-        "filters after every step of every history on the real store vs the model (exact answer) and vs ValidAnswer of the abstract specification.",
-   note=PROOF_NOTE + 'Modelled, not verified: LMDB (ordered maps, snapshot reads inside a write transaction, atomic commit), the mmap-append event map; the seven index tables are modelled as functions of the set of indexed events with range scans as filter+key-order sort. ' + "Filters with multi-byte tag names (constructible only with from_parts) are outside the completeness theorems (the tag plans probe by first byte only) and are covered by the correspondence; byte-level LMDB key order is modelled as (time desc, id asc).",
+        "the qualifying set and does not depend on the plan (findEvents_exact, plan_independent, answer_characterised). THE BYTE KEYS (index_key_order, index_range_bounds, "
+        "tag_index_range_bounds, time/author/author_kind_index_scan): the model's range scans are what a bytewise-ordered table returns between the bounds the *_iter functions "
+        "build over the keys key_*_index builds (prefix, big-endian u64::MAX - created_at, id; both bounds inclusive, all-zero and all-ones ids included). Correspondence: ~40 "
+        "filters after every step of every history on the real store vs the model (exact answer) and vs ValidAnswer of the abstract specification; the keys the six index tables "
+        "really hold, read back from LMDB in its iteration order through a verif hook, equal the model's keys byte for byte after every step.",
+   note=PROOF_NOTE + 'Modelled, not verified: LMDB (ordered maps, snapshot reads inside a write transaction, atomic commit), the mmap-append event map; the seven index tables are modelled as functions of the set of indexed events with range scans as filter+key-order sort. ' + "Filters with multi-byte tag names (constructible only with from_parts) are outside the completeness theorems (the tag plans probe by first byte only) and are covered by the correspondence. Of LMDB's ordering only 'a range is iterated in bytewise key order' is assumed (and observed on every step); the list-level scan equality is proved for the time, author and author-kind tables, the range/order facts at key level for the three tag tables.",
    technique="Lean 4 proof (loop invariant over all seven query plans) + differential correspondence + ValidAnswer oracle from the abstract specification",
    design="6/C05"),
  'C09': dict(
